@@ -1265,7 +1265,9 @@ struct Sim {
 
     // actual run flag
     uint_fast32_t current_index = _shared_queue->get_task(*_tasks);
-    while (global_run_flag) {
+    // a thread that obtained a task just before another thread cleared the
+    // run flag still has to execute (and release) that task
+    while (global_run_flag || current_index != NO_TASK) {
       park(thread_id, current_index); // VERIF
 
       if (current_index == NO_TASK) {
@@ -1319,6 +1321,9 @@ struct Sim {
       } else {
         current_index = scheduler->get_task(thread_id);
       }
+      // VERIF: global_run_flag is a plain bool read by the loop condition;
+      // another thread may clear it between the fetch above and that read
+      cmi_verif_yield();
     } // while(global_run_flag)
   }
 
